@@ -149,3 +149,21 @@ func PackedPayloadSeptetCounts(L int) []int {
 	}
 	return []int{n}
 }
+
+// GB18030Rune: the single character the octets encode, provided x/text maps it both ways (the BMP
+// private-use carve-out U+E000..U+E864 and unassigned positions are skipped).
+func GB18030Rune(b []byte) (rune, bool) {
+	d, err := simplifiedchinese.GB18030.NewDecoder().Bytes(b)
+	if err != nil {
+		return 0, false
+	}
+	rs := []rune(string(d))
+	if len(rs) != 1 || rs[0] == 0xFFFD || (rs[0] >= 0xE000 && rs[0] <= 0xF8FF) {
+		return 0, false
+	}
+	e, err := simplifiedchinese.GB18030.NewEncoder().Bytes([]byte(string(rs[0])))
+	if err != nil || string(e) != string(b) {
+		return 0, false
+	}
+	return rs[0], true
+}
